@@ -61,7 +61,9 @@ const RARE_NAMES: &[&str] =
       // a backslash followed by something a wildcard can match
       "\\x", "\\ab", "\\\\x", "a\\b",
       // names that sort before `name/...` when they extend a sibling's name
-      "a.d", "a+x", "a!", "a b", "a,b", "sub-1", "sub.d"];
+      "a.d", "a+x", "a!", "a b", "a,b", "sub-1", "sub.d",
+      // digits and capitals for the character classes
+      "1", "a1", "A", "7b"];
 
 fn pick_name(rng: &mut Rng) -> String {
     if rng.chance(1, 5) { rng.pick(RARE_NAMES).to_string() } else { rng.pick(NAMES).to_string() }
@@ -302,6 +304,27 @@ fn fixed_trees() -> Vec<Tree> {
             ("d/a", File),
             ("d/\\\\a", File),
             ("a\\b", File),
+        ]),
+        t(&[
+            ("a*", Dir(true)),
+            ("a*/x", File),
+            ("ab", Dir(true)),
+            ("ab/x", File),
+            ("*", Dir(true)),
+            ("*/x", File),
+            ("*/y", File),
+            ("[ab]", Dir(true)),
+            ("[ab]/x", File),
+            ("a", Dir(true)),
+            ("a/x", File),
+            ("b", Dir(true)),
+            ("b/x", File),
+            ("?", Dir(true)),
+            ("?/x", File),
+            ("h\\*", Dir(true)),
+            ("h\\*/x", File),
+            ("h\\b", Dir(true)),
+            ("h\\b/x", File),
         ]),
     ]
 }
@@ -693,6 +716,64 @@ fn gen_backslash_field(rng: &mut Rng, tree: &Tree) -> Vec<AttrChar> {
     v
 }
 
+/// A path of the tree whose last name has one character (or two) replaced by a
+/// bracket expression with a character class, a collating symbol or an
+/// equivalence class: valid ones, multi-character ones, invalid ones.
+fn gen_element_field(rng: &mut Rng, tree: &Tree) -> Vec<AttrChar> {
+    if tree.is_empty() {
+        return gen_attr_field(rng);
+    }
+    let node = rng.pick(tree);
+    let mut v: Vec<AttrChar> = vec![];
+    let last = node.path.len() - 1;
+    for (i, name) in node.path.iter().enumerate() {
+        if i > 0 {
+            v.extend(soft("/"));
+        }
+        if i < last {
+            if rng.chance(1, 2) { v.extend(soft("*")) } else { v.extend(soft(name)) }
+            continue;
+        }
+        let chars: Vec<char> = name.chars().collect();
+        let k = rng.below(chars.len());
+        let c = chars[k];
+        let two: Option<String> = if k + 1 < chars.len() { Some(format!("{}{}", c, chars[k + 1])) } else { None };
+        for &x in &chars[..k] {
+            v.push(ac(x, Origin::SoftExpansion, rng.chance(1, 4), false));
+        }
+        let class = *rng.pick(&["alpha", "digit", "lower", "upper", "punct", "alnum", "space", "xdigit", "graph", "word", "foo", ""]);
+        let mut skip_next = false;
+        let text = match rng.below(14) {
+            0 | 1 => format!("[[:{}:]]", class),
+            2 => format!("[![:{}:]]", class),
+            3 => format!("[[:{}:]{}]", class, c),
+            4 => format!("[[.{}.]]", c),
+            5 => format!("[[={}=]]", c),
+            6 | 7 if two.is_some() => {
+                skip_next = true;
+                format!("[[.{}.]]", two.as_ref().unwrap())
+            }
+            8 if two.is_some() => {
+                skip_next = rng.chance(1, 2);
+                format!("[[.{}.]{}]", two.as_ref().unwrap(), c)
+            }
+            9 if two.is_some() => format!("[![.{}.]z]", two.as_ref().unwrap()),
+            10 if two.is_some() => format!("[^[={}=]]", two.as_ref().unwrap()),
+            11 => format!("[[.{}.]-z]", c),
+            12 => format!("[!-[:{}:]]", class),
+            _ => (*rng.pick(&["[[..]]", "[[==]]", "[[:alpha:]", "[[.a.]", "[[:alpha:]-z]", "[[.].]]", "[[.-.]-z]", "[a[.-.]z]", "[[=]=]]"])).to_string(),
+        };
+        for x in text.chars() {
+            v.push(ac(x, Origin::SoftExpansion, rng.chance(1, 12), false));
+        }
+        let from = if skip_next { k + 2 } else { k + 1 };
+        for &x in &chars[from.min(chars.len())..] {
+            v.push(ac(x, Origin::SoftExpansion, rng.chance(1, 4), false));
+        }
+    }
+    v
+}
+
 /// A path of the tree that contains a backslash in some name: the backslash is
 /// written as a literal one (escaped, quoted, or doubled in an unquoted
 /// expansion) and what follows it as a wildcard, which must still match.
@@ -750,44 +831,6 @@ fn gen_bsname_field(rng: &mut Rng, tree: &Tree) -> Vec<AttrChar> {
         }
     }
     v
-}
-
-/// Pattern characters of one component (mirror of to_pattern, used only to keep
-/// the generator inside the model's domain: `true` = normal).
-fn pattern_chars(comp: &[AttrChar]) -> Vec<(char, bool)> {
-    let mut out = vec![];
-    let mut nq = false;
-    for c in comp {
-        let quoted = std::mem::replace(&mut nq, false);
-        if c.is_quoting {
-            continue;
-        }
-        if quoted || c.is_quoted || c.origin == Origin::HardExpansion {
-            out.push((c.value, false));
-        } else {
-            nq = c.value == '\\';
-            out.push((c.value, true));
-        }
-    }
-    out
-}
-
-/// Conservative test: may a component contain `[. .]`, `[= =]` or `[: :]`?
-fn maybe_unsupported(field: &[AttrChar]) -> bool {
-    for comp in field.split(|c| c.value == '/') {
-        let p = pattern_chars(comp);
-        for i in 0..p.len() {
-            if p[i] == ('[', true) && i + 1 < p.len() && p[i + 1].1 && ".=:".contains(p[i + 1].0) {
-                let d = p[i + 1].0;
-                for j in i + 2..p.len().saturating_sub(1) {
-                    if p[j] == (d, true) && p[j + 1] == (']', true) {
-                        return true;
-                    }
-                }
-            }
-        }
-    }
-    false
 }
 
 fn last_component_text(field: &[AttrChar]) -> String {
@@ -1119,7 +1162,7 @@ impl Ctx {
             Out::Panic(m) => ("GPanic".to_string(), json_str(&format!("PANIC: {}", m)), true),
         };
         let term = format!(
-            "({}, {}, {}, {}, {})",
+            "(GlobCase {} {} {} {} {})",
             tree_coq(snap),
             coq::s(&self.cwd),
             coq::b(noglob),
@@ -1170,7 +1213,7 @@ impl Ctx {
     }
 
     fn api(&mut self, stream: &str, tree: &Tree, reset: bool, noglob: bool, field: &[AttrChar]) {
-        if field.is_empty() || maybe_unsupported(field) {
+        if field.is_empty() {
             self.w.count("skipped:domain");
             return;
         }
@@ -1180,7 +1223,7 @@ impl Ctx {
 
     fn shell(&mut self, stream: &str, tree: &Tree, noglob: bool, units: &[Unit]) {
         let r = render(units, noglob);
-        if r.attrs.is_empty() || maybe_unsupported(&r.attrs) {
+        if r.attrs.is_empty() {
             self.w.count("skipped:domain");
             return;
         }
@@ -1383,6 +1426,129 @@ fn main() {
             cx.api("corpus-api", &fixed[ti], true, false, &r.attrs);
         }
     }
+    // character classes, collating symbols, equivalence classes
+    for f in [
+        "[[:alpha:]]*", "[![:alpha:]]*", "[[:punct:]]", "[[:punct:]]*", "[[:digit:]]", "[[:lower:]][[:lower:]]", "[[:upper:]]*",
+        "[[:alpha:][:punct:]]", "[[:space:]]", "[[.a.]]b", "[[.ab.]]", "[[=a=]]*", "[[.ab.]a]*", "[[.ab.]]*", "[![.ab.]]*",
+        "[![.ab.]-]", "[^[.ab.][=a]=]]", "[[:foo:]]*", "[[::]]*", "[[:alpha:]-z]", "[a-[:alpha:]]", "*[[:alpha:]", "[[.-.]]",
+        "[[.].]]", "[[..]]", "[[==]]a", "[[.a.]-b]", "[[.ab.]-b]*", "[!-[.a.]]", "[[.a.]", "sub/[[:alpha:]]", "*/[[.a.]]",
+        "[[.su.]]ub", "[[.su.]s]*", "[[:alpha:]]]", "[[.[.]]", "[[.*.]]", "[[=*=][=[=]]",
+    ] {
+        cx.api("corpus-api", &fixed[0], true, false, &soft(f));
+        cx.shell("corpus-shell", &fixed[0], false, &[Unit::Var(f.to_string())]);
+        cx.shell("corpus-shell", &fixed[0], false, &plain_units(f));
+    }
+    // the class tables: one-character names spread over ASCII (and one beyond)
+    {
+        let chars = [
+            '_', '0', '9', 'A', 'F', 'G', 'Z', 'a', 'f', 'g', 'z', '!', '@', '[', '`', '{', '~', '-', ' ', 'é', '\t', '\u{1}',
+            '\u{7f}', ':', '^', ']', '\\', '*', '?', '+', ',', '#', '$', '\u{b}', '\u{a0}',
+        ];
+        let tr: Tree = chars.iter().map(|c| Node { path: vec![c.to_string()], kind: Kind::File }).collect();
+        for class in ["alnum", "alpha", "ascii", "blank", "cntrl", "digit", "graph", "lower", "print", "punct", "space", "upper", "word", "xdigit", "Alpha", "alpha "] {
+            cx.api("class-api", &tr, true, false, &soft(&format!("[[:{}:]]", class)));
+            cx.api("class-api", &tr, true, false, &soft(&format!("[![:{}:]]", class)));
+            cx.shell("class-shell", &tr, false, &[Unit::Var(format!("[[:{}:]]", class))]);
+        }
+        cx.api("class-api", &tr, true, false, &soft("[[:alpha:][:digit:]_]"));
+        cx.api("class-api", &tr, true, false, &soft("[![:alnum:][:punct:]]"));
+        cx.api("class-api", &tr, true, false, &soft("[[.a.]-[.f.]]"));
+        cx.api("class-api", &tr, true, false, &soft("[[=A=]-[=F=][:digit:]]"));
+        cx.api("class-api", &tr, true, false, &soft("[[. .]-[.~.]]"));
+    }
+    // quoting inside the elements: a quoted delimiter does not delimit
+    for units in [
+        vec![Unit::Plain('['), Unit::Plain('['), Unit::Bs(':'), Unit::Var("alpha:]]*".into())],
+        vec![Unit::Var("[[:alpha".into()), Unit::Sq(":".into()), Unit::Var("]]*".into())],
+        vec![Unit::Var("[[:al".into()), Unit::Sq("ph".into()), Unit::Var("a:]]*".into())],
+        vec![Unit::Var("[[.".into()), Unit::Sq("a".into()), Unit::Var(".]]*".into())],
+        vec![Unit::Var("[[.a.".into()), Unit::Bs(']'), Unit::Var("]*".into())],
+        vec![Unit::Var("[".into()), Unit::Bs('['), Unit::Var(":alpha:]]*".into())],
+    ] {
+        cx.shell("corpus-shell", &fixed[0], false, &units);
+        let r = render(&units, false);
+        cx.api("corpus-api", &fixed[0], true, false, &r.attrs);
+    }
+    // tilde expansion results are literal: HOME full of pattern characters
+    for home in ["/a*", "/*", "/[ab]", "/?", "a*", "*", "[ab]", "/a*/", "/h\\*", "/nonexistent*"] {
+        for rest in ["", "/x", "/*", "/?", "/[x]"] {
+            let mut units = vec![Unit::Tilde(home.to_string())];
+            units.extend(plain_units(rest));
+            if home.ends_with('/') && rest.starts_with('/') {
+                continue; // (a HOME ending in a slash loses it before a slash)
+            }
+            cx.shell("tilde-shell", &fixed[10], false, &units);
+        }
+    }
+    // which places of the language expand pathnames at all (tree: files a and b)
+    {
+        let ctx_tree = t(&[("a", Kind::File), ("b", Kind::File)]);
+        let scenarios: &[(&str, &str)] = &[
+            ("CxCommandWord", "args *"),
+            ("CxCommandWord", "args ./*"),
+            ("CxForList", "for x in *; do args \"$x\"; done"),
+            ("CxSetArgs", "set -- *; args \"$@\""),
+            ("CxEvalWord", "eval 'args *'"),
+            ("CxUnquotedParam", "v='*'; args $v"),
+            ("CxUnquotedParam", "v='*'; args ${v}"),
+            ("CxUnquotedPositional", "set -- '*'; args $1"),
+            ("CxUnquotedPositional", "set -- '*'; args $@"),
+            ("CxUnquotedPositional", "set -- '*'; args $*"),
+            ("CxUnquotedDefault", "unset u; args ${u:-*}"),
+            ("CxUnquotedDefault", "unset u; args ${u-*}"),
+            ("CxCommandSubst", "args $(echo '*')"),
+            ("CxCommandSubst", "args `echo '*'`"),
+            ("CxFunctionArg", "f() { args $1; }; f '*'"),
+            ("CxQuotedParam", "v='*'; args \"$v\""),
+            ("CxQuotedAt", "set -- '*'; args \"$@\""),
+            ("CxQuotedAt", "set -- '*'; args \"$*\""),
+            ("CxQuotedDefault", "unset u; args \"${u:-*}\""),
+            ("CxCaseSubject", "case * in ('*') args '*';; (*) args a;; esac"),
+            ("CxCaseSubject", "v='*'; case $v in ('*') args '*';; (*) args a;; esac"),
+            ("CxRedirOperand", "echo hi > *; args *"),
+            ("CxRedirOperand", "v='*'; echo hi > $v; args *"),
+            ("CxRedirOperand", "echo hi >> *; args *"),
+            ("CxAssignValue", "v=*; args \"$v\""),
+            ("CxAssignValue", "w='*'; v=$w; args \"$v\""),
+            ("CxAssignValue", "v=* eval 'args \"$v\"'"),
+            ("CxAssignDefault", "unset d; : ${d=*}; args \"$d\""),
+            ("CxDeclUtilAssign", "export e=*; args \"$e\""),
+            ("CxDeclUtilAssign", "readonly r=*; args \"$r\""),
+            ("CxDeclUtilAssign", "w='*'; export e=$w; args \"$e\""),
+            ("CxNoglobCommandWord", "set -f; args *"),
+            ("CxNoglobCommandWord", "set -o noglob; for x in *; do args \"$x\"; done"),
+        ];
+        for (cx_name, script) in scenarios {
+            let tree2 = ctx_tree.clone();
+            let (o, _) = vsh::run_shell(
+                vsh::RunOpts { argv: vec!["-c".into(), script.to_string()], ..Default::default() },
+                move |_env, state| build_tree(&mut state.borrow_mut(), &tree2, false),
+            );
+            let seen: Vec<String> =
+                o.trace.iter().filter(|t| t.kind == "args").flat_map(|t| t.args.clone()).collect();
+            let star = seen.iter().any(|s| s == "*" || s == "./*");
+            let file = seen.iter().any(|s| s == "a" || s == "./a");
+            let observed = if o.panicked.is_some() || o.deadlock || o.timeout {
+                None
+            } else if star {
+                Some(false)
+            } else if file {
+                Some(true)
+            } else {
+                None
+            };
+            let term = format!("(ContextCase {} {})", cx_name, coq::opt(observed.map(coq::b)));
+            let json = format!(
+                "{{\"stream\":\"context\",\"context\":{},\"script\":{},\"seen\":{},\"stderr\":{}}}",
+                json_str(cx_name),
+                json_str(script),
+                json_str_list(&seen),
+                json_str(&o.stderr)
+            );
+            cx.w.count("stream:context");
+            cx.w.push(&term, &json, &[], Some(format!("context|{}", script)));
+        }
+    }
     // the order of results across directories
     for f in ["a*/f", "*/f", "?*/f", "a?*/f", "a*/*", "x*/f", "x*/*", "lib*/f", "lib*/sub/f", "lib*/*/f", "l*/s*/*", "[al]*/f", "a[!z]*/f", "./a*/f", "/a*/f", "a*//f"] {
         cx.api("corpus-api", &fixed[8], true, false, &soft(f));
@@ -1395,34 +1561,54 @@ fn main() {
         let six = long_tree(&[200, 200, 200, 200, 200, 200]);
         // (every pattern component names its level: the oracle enumerates the product
         // of the candidates of all components, so `*` at six levels would be 7^6 tuples)
-        for f in ["p*/q*/r*/s*/t*/u*/f", "p*/q*/r*/s*/t*/u*/*", "p*/q*/r*/s*/t*/u*", "p*/q*/r*/s*/t*/u*/[f]", "p*/q*/r*/s*/t*/u*/.*", "*/*"] {
+        // (the quick tier keeps a part of the long cases: they cost about 1.5 s each in Coq)
+        let full = args.thorough();
+        let six_fields: &[&str] = if full {
+            &["p*/q*/r*/s*/t*/u*/f", "p*/q*/r*/s*/t*/u*/*", "p*/q*/r*/s*/t*/u*", "p*/q*/r*/s*/t*/u*/[f]", "p*/q*/r*/s*/t*/u*/.*", "*/*"]
+        } else {
+            &["p*/q*/r*/s*/t*/u*/*", "p*/q*/r*/s*/t*/u*/.*"]
+        };
+        for f in six_fields {
             cx.api("long-api", &six, true, false, &soft(f));
         }
         let lit5 = format!("{}/{}/{}/{}/{}", x('p', 200), x('q', 200), x('r', 200), x('s', 200), x('t', 200));
-        cx.api("long-api", &six, true, false, &soft(&format!("{}/*/*", lit5)));
+        if full {
+            cx.api("long-api", &six, true, false, &soft(&format!("{}/*/*", lit5)));
+        }
         let lit6 = format!("{}/{}/{}/{}/{}/{}", x('p', 200), x('q', 200), x('r', 200), x('s', 200), x('t', 200), x('u', 200));
         cx.api("long-api", &six, true, false, &soft(&format!("{}/*", lit6)));
-        cx.api("long-api", &six, true, false, &soft(&format!("{}/?", lit6)));
-        cx.api("long-api", &six, true, false, &soft(&format!("*/{}/f", &lit6[201..])));
         cx.shell("long-shell", &six, false, &[Unit::Var("p*/q*/r*/s*/t*/u*/f".to_string())]);
-        cx.shell("long-shell", &six, false, &[Unit::Var(format!("{}/*", lit6))]);
+        if full {
+            cx.api("long-api", &six, true, false, &soft(&format!("{}/?", lit6)));
+            cx.api("long-api", &six, true, false, &soft(&format!("*/{}/f", &lit6[201..])));
+            cx.shell("long-shell", &six, false, &[Unit::Var(format!("{}/*", lit6))]);
+        }
         // directory part (with its final slash) of exactly 1022 .. 1026 bytes:
         // 256 + 256 + 256 + 201 + m + 1
         for m in [52usize, 53, 54, 55, 56] {
+            if !full && (m == 52 || m == 56) {
+                continue;
+            }
             let tr = long_tree(&[255, 255, 255, 200, m]);
             cx.api("long-api", &tr, true, false, &soft("p*/q*/r*/s*/t*/*"));
             let lit = format!("{}/{}/{}/{}/{}", x('p', 255), x('q', 255), x('r', 255), x('s', 200), x('t', m));
-            cx.api("long-api", &tr, true, false, &soft(&format!("{}/*", lit)));
-            if m == 54 {
+            if full || m == 54 {
+                cx.api("long-api", &tr, true, false, &soft(&format!("{}/*", lit)));
+            }
+            if full && m == 54 {
                 cx.api("long-api", &tr, true, false, &soft("p*/q*/r*/s*/t*/f"));
                 cx.api("long-api", &tr, true, false, &soft(&format!("/{}/*", lit)));
             }
-            cx.shell("long-shell", &tr, false, &[Unit::Var("p*/q*/r*/s*/t*/*".to_string())]);
+            if full || m == 54 {
+                cx.shell("long-shell", &tr, false, &[Unit::Var("p*/q*/r*/s*/t*/*".to_string())]);
+            }
         }
         // a working directory deep in the tree, patterns relative to it
         cx.cwd = format!("/{}", lit6);
         cx.api("long-api", &six, true, false, &soft("*"));
-        cx.api("long-api", &six, true, false, &soft("../*/f"));
+        if full {
+            cx.api("long-api", &six, true, false, &soft("../*/f"));
+        }
         cx.cwd = String::new();
         // single names of 255 bytes
         let one = long_tree(&[255]);
@@ -1556,7 +1742,8 @@ fn main() {
             let noglob = trng.chance(1, 12);
             let field = match trng.below(20) {
                 0..=8 => gen_targeted_field(&mut trng, &view),
-                9 | 10 => gen_bsname_field(&mut trng, &view),
+                9 => gen_bsname_field(&mut trng, &view),
+                10 => gen_element_field(&mut trng, &view),
                 11..=13 => gen_bracket_field(&mut trng, &view),
                 14 | 15 => gen_backslash_field(&mut trng, &view),
                 _ => gen_attr_field(&mut trng),
@@ -1567,7 +1754,8 @@ fn main() {
             let noglob = trng.chance(1, 10);
             let units = if trng.chance(2, 3) {
                 // a targeted field, rendered through an unquoted variable and quoted pieces
-                let f = match trng.below(7) {
+                let f = match trng.below(8) {
+                    7 => gen_element_field(&mut trng, &view),
                     0 | 1 => gen_bracket_field(&mut trng, &view),
                     2 => gen_backslash_field(&mut trng, &view),
                     3 => gen_bsname_field(&mut trng, &view),
